@@ -1,6 +1,6 @@
 (* Properties_C02.v — obligations of property C02 (PS/RT/PTYN characters land in the addressed
    cells via the RDS charset). *)
-Require Import ObsRun Lemmas_TextProps Lemmas_TabConv.
+Require Import ObsRun Lemmas_TextProps Lemmas_TabConv Lemmas_ObsText.
 Local Open Scope Z_scope.
 
 (* the character table measured on the compiled library equals the reference G0 table, maps 0x0D to
@@ -67,5 +67,15 @@ Qed.
 Print Assumptions C02_ptyn_frame.
 
 (* type 2: only the buffer of the group's own flag, see C08 (rt_step) *)
+(* THE OBSERVER: the boolean function obs_C02 that the check evaluates on the library's traces
+   (no cell of any text changes other than the addressed ones — except the emptying of the selected
+   RT buffer by a type-2 group with error-free B — and every error-free addressed reception is
+   stored through the table at level 0) holds at every step from every reachable state, for any
+   character table *)
+Theorem C02_observer : forall conv lut h s o ret, reach conv lut h s -> wf_op o ->
+  obs_C02 conv (o :: h) (snap_of s) (snap_of (fst (step conv lut s o))) (snd (step conv lut s o)) ret = true.
+Proof. exact obs_C02_holds. Qed.
+Print Assumptions C02_observer.
+
 Example C02_scenario : check_run_u (observer_u 2) scenario = true.
 Proof. vm_compute. reflexivity. Qed.
